@@ -48,16 +48,25 @@ Inductive fam :=
 | FLanczosRoot (run : nat)    (* a root from a run of its own *)
 | FDiagzL (run : nat)         (* Lanczos diagonalization *)
 | FTrans (id : nat)           (* a transplanted (root, inverse root) pair *)
+| FKron (l : list fam)        (* Kronecker product of factors from these families *)
 | FNone.
-Definition fam_eqb (a b : fam) : bool :=
+Fixpoint fam_eqb (a b : fam) : bool :=
   match a, b with
   | FChol, FChol | FEig, FEig | FSvd, FSvd | FPiv, FPiv | F1x1, F1x1 | FNone, FNone => true
   | FLanczos r, FLanczos r' | FLanczosRoot r, FLanczosRoot r' | FDiagzL r, FDiagzL r' | FTrans r, FTrans r' => Nat.eqb r r'
+  | FKron l, FKron l' =>
+      (fix go (l l' : list fam) : bool :=
+         match l, l' with [], [] => true | x :: r, y :: s => fam_eqb x y && go r s | _, _ => false end) l l'
   | _, _ => false
   end.
-(* L M^T = I : same factorization (the eigenvector matrix of _svd is that of _symeig) *)
-Definition fam_compat (a b : fam) : bool :=
+(* L M^T = I : same factorization (the eigenvector matrix of _svd is that of _symeig); a Kronecker product of
+   factors is compatible with one of inverse factors when the factors are, pairwise *)
+Fixpoint fam_compat (a b : fam) : bool :=
   match a, b with
+  | FKron l, FKron l' =>
+      (fix go (l l' : list fam) : bool :=
+         match l, l' with [], [] => true | x :: r, y :: s => fam_compat x y && go r s | _, _ => false end) l l'
+  | FKron _, _ | _, FKron _ => false
   | FPiv, _ | _, FPiv | FLanczosRoot _, _ | _, FLanczosRoot _ | FNone, _ | _, FNone => false
   | (FEig | FSvd), (FEig | FSvd) => true
   | _, _ => fam_eqb a b
@@ -116,6 +125,9 @@ Definition tri_use_ok (v : sval) : bool := sv_ok v && label_ok v.
 
 Definition shifted_of (A c : smat) : bool := match A with SAddDiag m _ => smat_eqb m c | _ => false end.
 Definition scaled_of (A c : smat) : bool := match A with SScale m _ => smat_eqb m c | _ => false end.
+
+Definition all_b (f : sval -> bool) (vs : list sval) : bool := forallb f vs.
+Definition iqld_rhs (v : sval) : option nat := match sv_kind v with KIqld r _ => r | _ => None end.
 
 Definition sym_kern : kern := {|
   Mat := smat; Val := sval;
@@ -181,7 +193,25 @@ Definition sym_kern : kern := {|
           let nr := mkv (KRootOp RRoot) A' ok true false (sv_tri_ok E) (FTrans B) in
           Ok (nr, Some (mkv (KRootOp RInv) A' (ok && sv_tri_ok E) true true true (FTrans B)))
       else Ok (plainv (KRootOp RRoot) A' ok (FTrans B), Some (plainv (KRootOp RInv) A' ok (FTrans B)))
-    else Ok (plainv (KRootOp RRoot) A' ok (FTrans B), None)
+    else Ok (plainv (KRootOp RRoot) A' ok (FTrans B), None);
+  (* Kronecker products: right when every factor's result is *)
+  k_eig_kron := fun A vecs es => plainv (KEig vecs) A (all_b (fun e => sv_ok e && is_kind e (KEig vecs)) es) FEig;
+  k_svd_kron := fun A us => plainv KSvd A (all_b (fun u => sv_ok u && is_kind u KSvd) us) FSvd;
+  k_chol_kron := fun A cs up =>
+    mkv (KFactor (if up then RRootT else RRoot)) A
+        (all_b (fun c => sv_ok c && is_factor c (if up then RRootT else RRoot) && sv_tri c && Bool.eqb (sv_upper c) up && sv_tri_ok c) cs)
+        true up true (FKron (map sv_fam cs));
+  k_root_kron := fun A rs =>
+    plainv (KRootOp RRoot) A (all_b (fun r => sv_ok r && is_rootop r RRoot && label_ok r && negb (sv_tri r && sv_upper r)) rs)
+           (FKron (map sv_fam rs));
+  k_rootinv_kron := fun A rs =>
+    plainv (KRootOp RInv) A (all_b (fun r => sv_ok r && is_rootop r RInv && label_ok r) rs) (FKron (map sv_fam rs));
+  k_iqld_kron := fun A iq e =>
+    plainv (KIqld (match iq with Some x => iqld_rhs x | None => None end) (match e with Some _ => true | None => false end)) A
+           ((match iq with
+             | Some x => sv_ok x && smat_eqb (sv_of x) A && (match sv_kind x with KIqld (Some _) false => true | _ => false end)
+             | None => true end) &&
+            (match e with Some e' => sv_ok e' && smat_eqb (sv_of e') A && is_eig e' | None => true end)) FNone
 |}.
 
 (* validity of an answer / a cache entry in the symbolic instance *)
